@@ -154,7 +154,8 @@ def allocated(x):
 
 
 def fresh(x):
-    return id(x) not in _PRE_IDS
+    # not one of the objects reachable from the arguments before the call (those are kept alive by track())
+    return id(x) not in _LIVE
 
 
 def unchanged(x):
@@ -179,6 +180,14 @@ def real_pow(x, y):
 
 def spec_sum(xs, n=None):
     return math.fsum(xs if n is None else xs[:n])
+
+
+def count_failures(xs, k):
+    olds = _OLD_RESULTS.get(id(xs), xs)
+    return sum(1 for x in olds[:k] if not (x['ok'] == True))
+
+
+_OLD_RESULTS = {}
 
 
 def sum_field(xs, key):
@@ -221,6 +230,10 @@ def ufn(name, *args):
 
 def bind_ufn(name, fn):
     _UFN[name] = fn
+
+
+def str_lower(a):
+    return a.lower()
 
 
 def str_replace(a, b, c):
